@@ -502,6 +502,14 @@ class Concatenator(Group):  # pylint: disable=too-many-public-methods
         elif isinstance(entity, ConcatenatedObject):
             # First remove the children
             entity.remove_children(entity.children.copy())
+
+            # Then the rows of the object's own arrays
+            for label in ("Surveys", "Trace", "TraceDepth", "Property Group IDs"):
+                index = self.fetch_index(entity, label)
+                if index is not None:
+                    self.delete_index_data(label, index)
+                    self.save_attribute(label)
+
             object_ids = self.concatenated_object_ids
 
             if object_ids is not None:
